@@ -104,6 +104,12 @@ SABOTAGE = [
     [['send', '2probe'], ['wait_frame'], ['send', '6'], ['delay', 4]],
     [['send', '2probe'], ['wait_frame'], ['send', {'hex': '35'}],
      ['delay', 4]],
+    # a frame that is half a probe, followed by UPGRADE
+    [['send', '2nope'], ['delay', 2], ['send', '5'], ['delay', 4]],
+    [['send', '2'], ['delay', 2], ['send', '5'], ['delay', 4]],
+    [['send', '4probe'], ['delay', 2], ['send', '5'], ['delay', 4]],
+    [['send', '3probe'], ['delay', 2], ['send', '5'], ['delay', 4]],
+    [['send', '2Probe'], ['delay', 2], ['send', '5'], ['delay', 4]],
     # correct, but without pausing the poll loop first (legal for a client)
     [['send', '2probe'], ['wait_frame'], ['send', '5']],
     [['send', '2probe'], ['wait_frame'], ['delay', 3], ['send', '5']],
@@ -206,6 +212,11 @@ def gen_server_plan(rng, prof=None):
         for _ in range(rng.randint(*p['sends'])):
             t = s['t_open'] + _near(rng, span, t_up)
             app.append({'t': t, 'op': 'send', 'c': c, 'data': pay.next()})
+        if rng.random() < p.get('p_burst', 0.0):
+            t = s['t_open'] + _near(rng, span, t_up)
+            app.append({'t': t, 'op': 'send_burst', 'c': c,
+                        'data': [pay.next() for _ in range(
+                            rng.choice([3, 15, 16, 17, 18, 20, 33, 40]))]})
         # app-initiated disconnect
         if rng.random() < p['p_app_disconnect']:
             polling_only = s['open'] == 'polling' and t_up is None
@@ -250,7 +261,9 @@ def _near(rng, span, t_up, lo=0.0):
 
 def raw_packets(rng, cpay, p, n=None):
     """A list of wire-form packets (text channel) mixing every type digit."""
-    n = n or rng.choice([1, 1, 2, 3, 5, 8])
+    lim = p.get('packet_limit', 16)
+    n = n or rng.choice([1, 1, 2, 3, 5, 8, lim - 1, lim, lim + 1, lim + 2])
+    n = max(1, n)
     out = []
     for _ in range(n):
         r = rng.random()
